@@ -90,4 +90,45 @@ mod verif_dynser {
         let j = Value::Null;
         total(&O::Schema, &j);
     }
+
+    /// C17: f64 leaf: to_stdvec_dyn(F64, json(v)) == static encoding, for every FINITE v (non-finite floats have no JSON number)
+    #[kani::proof]
+    #[kani::unwind(10)]
+    fn leaf_f64() {
+        let v: f64 = kani::any();
+        kani::assume(v.is_finite());
+        let j = Value::Number(Number::from_f64(v).unwrap());
+        let mut out = Vec::new();
+        assert!(ser_named_type(&O::F64, &j, &mut out).is_ok(), "SPEC: dynamic encoder rejects a finite f64");
+        let want = v.to_bits().to_le_bytes();
+        assert!(out.len() == 8, "SPEC: f64 is eight bytes");
+        let i: usize = kani::any();
+        kani::assume(i < 8);
+        assert!(out[i] == want[i], "SPEC: dynamic f64 bytes differ from the little-endian IEEE-754 pattern");
+        core::mem::forget(out);
+        core::mem::forget(j);
+    }
+
+    /// C18: string-valued JSON (incl. multi-byte and empty strings) against every scalar kind incl. Char / String: result or error, never a panic
+    #[kani::proof]
+    #[kani::unwind(12)]
+    fn total_string_json() {
+        let which: u8 = kani::any();
+        let s: &str = match which {
+            0 => "",
+            1 => "a",
+            2 => "\u{e9}",
+            3 => "ab",
+            _ => "\u{1F980}",
+        };
+        let j = Value::String(String::from(s));
+        total(&O::Char, &j);
+        total(&O::String, &j);
+        total(&O::Bool, &j);
+        total(&O::U8, &j);
+        total(&O::I64, &j);
+        total(&O::F32, &j);
+        total(&O::Unit, &j);
+        core::mem::forget(j);
+    }
 }
